@@ -127,6 +127,17 @@ class SubCheck:
     fuzz: Optional[dict] = None
 
 
+def dict_strategy(mapping):
+    """Like st.fixed_dictionaries(mapping) (same keys, same order) but built from st.tuples: fixed_dictionaries also draws a
+    shuffled iteration order, and with >= 4 keys the byte-buffer provider behind `fuzz_one_input` (hypothesis 6.168)
+    rejects every buffer at that draw - the libFuzzer campaigns of C07 / C08 executed no case at all until this was found
+    (the runner now treats a fuzz job that executed nothing as a harness error)."""
+    from hypothesis import strategies as st
+
+    keys = list(mapping)
+    return st.tuples(*[mapping[k] for k in keys]).map(lambda t: dict(zip(keys, t)))
+
+
 def jsonable(x):
     import numpy as np
 
